@@ -2,6 +2,7 @@ import Driver.Util
 import Resvg.Tree.Collect
 import Resvg.Convert.FilterInputs
 import Resvg.Writer.Escape
+import Resvg.Writer.Color
 import Resvg.Writer.Num
 namespace Driver
 open Resvg.Tree Resvg.Convert
@@ -80,6 +81,17 @@ def handleRefs (op : String) (args : List String) : String :=
     match p.toNat?, parseF32? bits with
     | some p, some num => showBits (Resvg.F32.rnd (Resvg.Writer.writeNumValue Resvg.F32.rnd p num))
     | _, _ => "bad-op"
+  | "writecolor", [r, g, b] =>
+    match r.toNat?, g.toNat?, b.toNat? with
+    | some r, some g, some b => String.ofList (Resvg.Writer.writeColor r g b)
+    | _, _, _ => "bad-op"
+  | "parsecolor", [hex] =>
+    match optStr? ("=" ++ hex) with
+    | some (some str) =>
+      match Resvg.Writer.parseHexColor str.toList with
+      | some (r, g, b) => s!"{r} {g} {b}"
+      | none => "none"
+    | _ => "bad-op"
   | "esctext", [hex] =>
     match optStr? ("=" ++ hex) with
     | some (some str) => showInp.hexStr (String.ofList (Resvg.Writer.writeTextValue str.toList))
